@@ -158,7 +158,8 @@ def main(argv=None):
     tie_ok, tie_msg = core.extract_tables()
     hok, hmsg, hdt = core.build_harness()
     mok, mmsg, mdt = core.lake_build(['pxmodel'])
-    pok, pmsg, pdt = core.lake_build(['PyxisVerif.Props.' + prop])
+    prop_targets = core.audit_imports(prop)
+    pok, pmsg, pdt = core.lake_build(prop_targets)
     thms, problems, listed = ({}, ['property module did not build'], [])
     if pok:
         thms, problems, listed = core.audit(prop)
@@ -172,7 +173,7 @@ def main(argv=None):
     t_problems += ['forbidden construct: ' + h for h in forb]
     if tier == 'thorough' and pok:
         with core.Lock('lake.lock'):
-            p, dt = run(['lake', 'env', 'leanchecker', 'PyxisVerif.Props.' + prop], cwd=LEAN, timeout=3600)
+            p, dt = run(['lake', 'env', 'leanchecker'] + prop_targets, cwd=LEAN, timeout=3600)
         if p.returncode != 0:
             t_problems.append('leanchecker rejected PyxisVerif.Props.%s: %s' % (prop, (p.stdout + p.stderr)[-800:]))
     obligations = len(listed)
